@@ -237,6 +237,50 @@ def rule_MP3(rep, prog):
     rep.require(rid, ok2, fn.file, fn.name, "relinquish-after-apply", "the reserved width must be relinquished after _dispatch_apply_f returns on every path", sample={"apply_f": len(af)})
 
 
+def rule_AI5(rep, prog):
+    rid = rep.rule("C10-AI5", "width reservation arithmetic: _dispatch_queue_try_reserve_apply_width on a queue of width w with k slots in use grants exactly "
+                   "min(requested, w - k) - never a negative amount - and adds that many WIDTH_INTERVALs to dq_state (concrete evaluation over a grid of w, k, requests)",
+                   floor=12)
+    from dqsa import consts
+    k = consts.get(["DISPATCH_QUEUE_WIDTH_FULL", "DISPATCH_QUEUE_WIDTH_INTERVAL", "DISPATCH_QUEUE_WIDTH_FULL_BIT", "DISPATCH_QUEUE_WIDTH_SHIFT"], unit="queue")
+    FULL, IV, FB, SH = k["DISPATCH_QUEUE_WIDTH_FULL"], k["DISPATCH_QUEUE_WIDTH_INTERVAL"], k["DISPATCH_QUEUE_WIDTH_FULL_BIT"], k["DISPATCH_QUEUE_WIDTH_SHIFT"]
+    fn = prog.fn("_dispatch_queue_try_reserve_apply_width")
+    rep.saw(fn)
+    wl = [l for l in fn.all_insts() if l.op == "load" and "dq_width" in prog.fields(l)]
+    sl = [l for l in fn.all_insts() if l.op == "load" and "dq_state" in prog.fields(l)]
+    cx = [c for c in fn.all_insts() if c.op == "cmpxchg" and "dq_state" in prog.fields(c)]
+    if not wl or not sl or len(cx) != 1:
+        rep.unknown(rid, "anchor vanished in _dispatch_queue_try_reserve_apply_width (dq_width loads=%d, dq_state loads=%d, cmpxchg=%d)" % (len(wl), len(sl), len(cx)))
+        return
+    M32 = (1 << 32) - 1
+    for w, kuse in ((2, 1), (2, 0), (3, 1), (8, 3), (8, 8), (4, 4)):
+        for da in (1, 5):
+            S = ((FULL - w + kuse) << SH) | 0x1
+            if kuse >= w:
+                S = ((FULL - w + kuse) << SH) | 0x1          # width field reaches FULL: the FULL bit is part of the field encoding
+            env = {l.id: w for l in wl}
+            env.update({l.id: S for l in sl})
+            env[("a", 1)] = da
+            succ = [u for u in fn.users(cx[0]) if u.op == "extractvalue" and u.d.get("idx") == [1]]
+            env.update({u.id: 1 for u in succ})
+            env.update({u.id: S for u in fn.users(cx[0]) if u.op == "extractvalue" and u.d.get("idx") == [0]})
+            news = []
+            def stop(i, news=news, env=env):
+                if i is cx[0]:
+                    news.append(ceval(fn, i.ops[2], {k_: v_ for k_, v_ in env.items() if not isinstance(v_, tuple)}))
+                return i.op == "ret"
+            r, env = concrete_walk(fn, env, stop)
+            v = ceval(fn, r.ops[0], {k_: v_ for k_, v_ in env.items() if not isinstance(v_, tuple)}) if r is not None and r.ops else None
+            want = max(0, min(da, w - kuse))
+            got = None if v is None else (v - (1 << 32) if v >> 31 else v)
+            okn = (not news and want == 0) or (news and news[-1] is not None and news[-1] == S + want * IV)
+            rep.require(rid, got == want and okn, fn.file + ":" + str(fn.d.get("line")), fn.name, "apply-width-grant:%d:%d:%d" % (w, kuse, da),
+                        "_dispatch_queue_try_reserve_apply_width on a queue of width %d with %d slot(s) in use, asked for %d, grants %s (state %s), expected %d: a "
+                        "negative or oversized grant corrupts the width field - the redirect then runs with a wrong helper count (an empty helper list is pushed to the "
+                        "root queue and dispatch_apply never returns) or exceeds the queue's width" % (w, kuse, da, got, hex(news[-1]) if news and news[-1] is not None else None, want),
+                        sample={"width": w, "in_use": kuse, "asked": da, "granted": want})
+
+
 def rule_SB4(rep, prog):
     rid = rep.rule("C10-SB4", "dispatch_apply on a custom queue submits itself as a NON-barrier item (dispatch_sync_f, never a barrier variant - an apply issued from an "
                    "item already running on that concurrent queue would wait for itself); DISPATCH_APPLY_AUTO resolves the caller's hierarchy down to its root "
@@ -310,6 +354,17 @@ def run(rep, tier="quick", srcdir=None, only=None):
         rule_MP3(rep, prog)
     if want("C10-SB4"):
         rule_SB4(rep, prog)
+    if want("C10-AI5"):
+        rule_AI5(rep, prog)
+    if want("C05-WR3") or want("C05-OD2"):
+        # dispatch_apply returns only after every invocation finished: the caller's wait on da_event (a thread event) re-validates the word after every
+        # wake-up, and an apply submitted through dispatch_sync_f is run exactly once - by the caller, or remotely with dsc_func cleared (shared with C05)
+        from . import C05
+        from dqsa import build, ir
+        if want("C05-WR3"):
+            C05.rule_WR3(rep, ir.Program(build.facts_for(["shims/lock"], srcdir=srcdir)))
+        if want("C05-OD2"):
+            C05.rule_OD2(rep, prog, None)
     if want("C18-MP4"):
         # the invocations behave as items OF the submitting queue: helper threads run through the redirect invoke that installs that queue's
         # thread frame (shared with C18)
